@@ -22,13 +22,25 @@ RULE = ("bounded-exhaustive: every sequence of length <= L over the alphabet {St
         "L=6 with tick(0.1) only from the running situation) x start situations {stopped; running inside a block with an active Watch; "
         "paused; holding; error-paused} x methods {blocks+watch; failing UOD command; invalid instruction}, each followed by "
         "7 settle ticks with rotating increments; thorough adds random sequences of length 8-24 over generated methods "
-        "(blocks, watches, alarms, timed Pause/Hold, failing commands). distinct = (method, start situation, sequence); "
+        "(blocks, watches, alarms, timed Pause/Hold, failing commands). INTERPRETER-PATH stratum: every sequence of length "
+        "<= 3 (thorough <= 4) over the user commands, tick(0.1), tick(0.3) and the 7 control commands scheduled through "
+        "Engine.schedule_execution (the interpreter's entry, no user gating; applied only while a run is active) that "
+        "contains at least one scheduled command, from {running in a block; holding[; paused]}; the random sequences also "
+        "inject every engine-command instruction the parser accepts (Stop Restart Pause Hold Unpause Unhold Info Warning "
+        "Error, timed Pause/Hold) and schedule commands directly. distinct = (method, start situation, sequence); "
         "non-trivial = at least one tick was judged that began Paused or Holding, or a run start was judged")
 ASSUMPTIONS = [
     "'state of the tick' is System State / Run Id read immediately before Engine.tick (the engine updates the clocks "
     "before it executes queued commands)",
     "'a run starts' is read as: a new non-empty Run Id is visible at the end of a tick; 'zero' is checked at the end of "
     "that tick",
+    "'during the run': a run that is active when a tick begins (Run Id shown, System State not Stopped) only ends in "
+    "that tick if the engine announces the run end (on_stop, emitted by Stop and Restart). Without a run end the whole "
+    "tick belongs to that run and Process/Run Time must not decrease over it - also when the tick ends with another Run "
+    "Id or announced a run start: a Run Id change alone does not open a new run for the 'never decrease' clause",
+    "commands scheduled through Engine.schedule_execution stand for commands issued by the method: they are applied "
+    "between ticks and only while a run is active (the interpreter is only ticked during a run); the engine's own "
+    "refusal of such a command (e.g. Start while a run is active) must leave the clocks alone",
     "'only while a run is active' is refuted only when the tick began with System State Stopped",
     "Block/Scope Time increases over ticks that began in state Restarting (run being torn down; values are reset when "
     "the new run starts) are not judged: the statement names Paused and Holding",
@@ -38,10 +50,21 @@ ASSUMPTIONS = [
 ]
 REQUIRED = {"ticks_judged": 20000, "run_starts_judged": 2000, "paused_ticks_judged": 2000, "holding_ticks_judged": 2000,
             "cmd_paused_ticks_judged": 1000, "not_running_pt_checks": 5000, "stopped_rt_checks": 1000,
-            "same_run_monotone_checks": 10000}
+            "same_run_monotone_checks": 10000,
+            # interpreter-path commands: scheduled while a run is active and the tick that executed them judged by the
+            # 'never decrease during the run' clause; the alphabet covers the engine's command registry
+            "sched_cmds_applied": 5000, "monotone_checks_over_tick_after_scheduled_Start": 300,
+            "monotone_checks_over_tick_after_scheduled_cmd": 3000, "run_boundaries_with_run_end_seen": 2000,
+            "alphabet_covers_command_registry": 1}
 EXHAUSTIVE_ALL = False
 
 USER = ("Start", "Stop", "Pause", "Unpause", "Hold", "Unhold", "Restart")
+# control commands scheduled through Engine.schedule_execution (the entry the interpreter uses for a command line of the
+# method; no user gating) and instruction lines injected with Engine.inject_code. Checked against the engine's own
+# registry (EngineCommandEnum / EngineCommandNode.instruction_names) by registry_covered().
+SCHED = tuple("s:" + c for c in USER)
+INJECT = ("i:Stop", "i:Restart", "i:Pause", "i:Pause: 0.2s", "i:Hold", "i:Hold: 0.2s", "i:Unpause", "i:Unhold",
+          "i:Info: x", "i:Warning: x", "i:Error: x")
 TICKS = {"t1": 0.1, "t3": 0.3, "t05": 0.05}
 SETTLE = ("t1", "t3", "t05", "t1", "t1", "t3", "t1")
 
@@ -75,6 +98,8 @@ class Monitor:
         self.scope_events = 0
         self.interesting = False
         self.runstate_events = 0
+        self.stop_events = 0                       # run ends announced (on_stop) in this tick
+        self.sched_pending: list[str] = []         # commands scheduled / injected since the last tick
         em = rig.e.emitter
         mon = self
 
@@ -103,10 +128,15 @@ class Monitor:
 
         def on_scope(*a, **kw):
             mon.scope_events += 1
+
+        def on_stop(*a, **kw):
+            mon.scope_events += 1
+            mon.stop_events += 1
         wrap("emit_on_runstate_change", on_rs)
         wrap("emit_on_start", on_start)
+        wrap("emit_on_stop", on_stop)
         for nm in ("emit_on_block_start", "emit_on_block_end", "emit_on_scope_start", "emit_on_scope_activate",
-                   "emit_on_scope_end", "emit_on_stop"):
+                   "emit_on_scope_end"):
             wrap(nm, on_scope)
 
     def clocks(self):
@@ -124,6 +154,27 @@ class Monitor:
             ok = rig.user(sym)
             self.hist.append(sym + ("" if ok else "(rejected)"))
             return True
+        if sym[:2] in ("s:", "i:"):
+            # a command issued on the interpreter's path: only while a run is active (the interpreter is not ticked
+            # otherwise)
+            if rig.state == "Stopped":
+                self.res.count("sched_cmds_skipped_no_run_active")
+                self.hist.append(sym + "(skipped)")
+                return True
+            try:
+                if sym[0] == "s":
+                    rig.e.schedule_execution(sym[2:])
+                else:
+                    rig.e.inject_code(sym[2:])
+            except Exception as ex:
+                self.res.count("sched_cmd_raised")
+                self.hist.append(sym + f"(raised {type(ex).__name__})")
+                return False
+            self.res.count("sched_cmds_applied" if sym[0] == "s" else "injected_cmds_applied")
+            if sym[0] == "s":
+                self.sched_pending.append(sym[2:])      # executes in the next tick (an injected line: some ticks later)
+            self.hist.append(sym)
+            return True
         dt = TICKS[sym]
         res = self.res
         s0 = rig.state
@@ -131,7 +182,9 @@ class Monitor:
         pt0, rt0, bt0, st0 = self.clocks()
         origin0 = self.pause_origin
         self.scope_events = 0
+        self.stop_events = 0
         self.start_origins = []
+        sched, self.sched_pending = self.sched_pending, []
         first = rig.first
         rig.tick(dt=dt, catch=True)
         if rig.tick_exc:
@@ -153,6 +206,8 @@ class Monitor:
         # (a) zero at run start
         if r1 and r1 != r0:
             res.count("run_starts_judged")
+            if not r0 or s0 == "Stopped" or self.stop_events:
+                res.count("run_boundaries_with_run_end_seen")
             self.interesting = True
             via_restart = bool(self.start_origins) and all(o == "RestartEngineCommand" for o in self.start_origins)
             if via_restart:
@@ -165,13 +220,22 @@ class Monitor:
                     mech = "C07.restart_keeps_clocks"
                 self.V(mech, f"tick {k}: new Run Id appears but Process Time={pt1!r} Run Time={rt1!r} (state before tick "
                              f"{s0}, after {s1}; run opened by {self.start_origins})")
-        # (b) never decrease within a run
-        if r0 and r1 == r0:
+        # (b) never decrease within a run. The tick lies within one run if the Run Id is the same at both ends, or if a
+        # run was active when it began and no run end was announced in it (then a changed Run Id / an announced run
+        # start is not a run boundary: the run that was active has not ended)
+        no_run_end = bool(r0) and s0 != "Stopped" and not self.stop_events
+        if r0 and (r1 == r0 or no_run_end):
             res.count("same_run_monotone_checks")
+            if sched and no_run_end:
+                res.count("monotone_checks_over_tick_after_scheduled_cmd")
+                if "Start" in sched:
+                    res.count("monotone_checks_over_tick_after_scheduled_Start")
+            how = "within run" if r1 == r0 else (f"during the run {r0!r}: no run end was announced in this tick, yet it "
+                                                 f"ends with Run Id {r1!r} (run starts announced by {self.start_origins})")
             if pt1 < pt0:
-                self.V(None, f"tick {k}: Process Time decreased {pt0!r} -> {pt1!r} within run (state {s0}->{s1})")
+                self.V(None, f"tick {k}: Process Time decreased {pt0!r} -> {pt1!r} {how} (state {s0}->{s1})")
             if rt1 < rt0:
-                self.V(None, f"tick {k}: Run Time decreased {rt0!r} -> {rt1!r} within run (state {s0}->{s1})")
+                self.V(None, f"tick {k}: Run Time decreased {rt0!r} -> {rt1!r} {how} (state {s0}->{s1})")
         # (c) Process Time only over ticks that began Running
         if s0 != "Running":
             res.count("not_running_pt_checks")
@@ -235,6 +299,28 @@ def _alphabet(names):
     return list(USER) + list(names)
 
 
+def registry_covered(res: Result) -> None:
+    """The interpreter-path alphabet is written out above; compare it with what the code under test registers: every
+    member of EngineCommandEnum that has a command class taking no mandatory argument must be schedulable (SCHED), every
+    instruction name the parser turns into an engine command must be injectable (INJECT)."""
+    from openpectus.engine.models import EngineCommandEnum
+    from openpectus.lang.model.ast import EngineCommandNode
+    import openpectus.engine.internal_commands_impl as impl
+    registered = set()
+    for nm in dir(impl):
+        cls = getattr(impl, nm)
+        if isinstance(cls, type) and nm.endswith("EngineCommand") and nm != "InternalEngineCommand":
+            registered.add(nm[:-len("EngineCommand")])
+    control = {str(c) for c in EngineCommandEnum if str(c) in registered} - {"Info", "Warning", "Error"}
+    missing = sorted(control - {x[2:] for x in SCHED})
+    missing += sorted(set(EngineCommandNode.instruction_names) - {x[2:].split(":")[0] for x in INJECT})
+    if missing:
+        res.notes.append(f"engine commands missing from the C07 interpreter-path alphabet: {missing}")
+        res.count("engine_commands_not_in_alphabet", len(missing))
+    else:
+        res.count("alphabet_covers_command_registry")
+
+
 def plan(tier, seed):
     specs = []
     if tier == "quick":
@@ -245,6 +331,9 @@ def plan(tier, seed):
                                      ["fail_cmd", "running"], ["bad_instr", "errpaused"]], "seed": seed})
         for i in range(2):
             specs.append({"kind": "random", "seed": seed * 1000003 + i, "n": 500, "minlen": 8, "maxlen": 20})
+        for i in range(4):
+            specs.append({"kind": "interp", "alpha": ["t1", "t3"], "maxlen": 3, "shard": i, "of": 4,
+                          "combos": [["blocks", "running"], ["blocks", "holding"]], "seed": seed})
     else:
         shards = 40
         for i in range(shards):
@@ -257,6 +346,10 @@ def plan(tier, seed):
                           "combos": [["blocks", "running"]], "seed": seed})
         for i in range(12):
             specs.append({"kind": "random", "seed": seed * 1000003 + 100 + i, "n": 2500, "minlen": 8, "maxlen": 24})
+        for i in range(16):
+            specs.append({"kind": "interp", "alpha": ["t1", "t3"], "maxlen": 4, "shard": i, "of": 16,
+                          "combos": [["blocks", "running"], ["blocks", "paused"], ["blocks", "holding"],
+                                     ["fail_cmd", "running"]], "seed": seed})
     return specs
 
 
@@ -293,9 +386,33 @@ def run_shard(spec):
             res.exhaustive_parts.append(
                 f"all sequences of length {lo}..{spec['maxlen']} over {alpha} x {spec['combos']} (method, start situation)")
         res.count("enumerated_sequences", n_seq)
+    elif spec["kind"] == "interp":
+        # interpreter-path stratum: every sequence over user commands + scheduled commands + ticks that contains at
+        # least one scheduled command, from situations in which a run is active
+        alpha = _alphabet(spec["alpha"]) + list(SCHED)
+        idx = 0
+        n_seq = 0
+        for L in range(1, spec["maxlen"] + 1):
+            for seq in itertools.product(alpha, repeat=L):
+                if not any(x in SCHED for x in seq):
+                    continue
+                idx += 1
+                if idx % spec["of"] != spec["shard"]:
+                    continue
+                n_seq += 1
+                for mname, pname in spec["combos"]:
+                    case = {"kind": "enum", "method": mname, "prelude": pname, "seq": list(seq)}
+                    run_sequence(METHODS[mname], PRELUDES[pname] + seq + SETTLE, res, case, (mname, pname, seq))
+        if spec["shard"] == 0:
+            registry_covered(res)
+            res.exhaustive_parts.append(
+                f"all sequences of length 1..{spec['maxlen']} over {alpha} with at least one scheduled command x "
+                f"{spec['combos']} (method, start situation)")
+        res.count("interp_sequences", n_seq)
     else:
         rnd = random.Random(spec["seed"])
         alpha = _alphabet(["t1", "t3", "t05", "t1", "t1", "t1"])
+        alpha = alpha * 3 + list(SCHED) + list(INJECT)
         for _ in range(spec["n"]):
             text = gen_method(rnd) if rnd.random() < 0.8 else METHODS[rnd.choice(sorted(METHODS))]
             n = rnd.randint(spec["minlen"], spec["maxlen"])
